@@ -1,6 +1,7 @@
 //! vt — the verification harness for typstyle.  It drives the real code and *projects* what it
 //! observes into NDJSON; every judgement is a TLA+ formula evaluated by TLC (DESIGN.md §3).
 
+mod cli;
 mod proj;
 mod universe;
 
@@ -432,6 +433,17 @@ fn main() {
         Some("record") => cmd_record(&a),
         Some("seeds-check") => cmd_seeds_check(&a),
         Some("fmt") => cmd_fmt(&a),
+        Some("cli") => {
+            let r = cli::run_scenarios(
+                Path::new(&a.get("scen", "")),
+                &PathBuf::from(a.get("bin", cli::default_bin().to_str().unwrap())),
+                Path::new(&a.get("work", "/verif/work/cli-scratch")),
+                Path::new(&a.get("outdir", "work/cli")),
+                a.num("shards", 8) as usize,
+                a.num("strace-every", 0) as usize,
+            );
+            println!("{}", r);
+        }
         _ => {
             eprintln!("usage: vt record|seeds-check|fmt ...");
             std::process::exit(2);
